@@ -26,8 +26,9 @@ def TrackerOK (r p s : Nat) (t : Tracker) : Prop := ∃ vs, Refines vs t ∧ ∀
 
 /-- a threshold event of round `r` is backed by a structurally valid bundle of good votes -/
 def ThreshOK (r : Nat) (e : Thresh) : Prop :=
-  e.kind ≠ 0 → e.round = r ∧ e.bundle.proposal = e.proposal ∧ (e.kind = 2 → e.step = 2) ∧
-    Bundle.verify (cfgOf P e.step) (good r e.period e.step) e.bundle = true
+  (e.kind ≠ 0 → e.round = r ∧ e.bundle.proposal = e.proposal ∧ (e.kind = 2 → e.step = 2) ∧
+    Bundle.verify (cfgOf P e.step) (good r e.period e.step) e.bundle = true) ∧
+  (e.kind = 0 → e.bundle.proposal = 0)
 
 def QS (r p s : Nat) (sr : StepR) : Prop := TrackerOK good r p s sr.tracker
 def QP (r p : Nat) (pr : PeriodR) : Prop := ∀ kv ∈ pr.steps, QS good r p kv.1 kv.2
@@ -40,7 +41,7 @@ def QRoot (root : Root) : Prop := ∀ kv ∈ root.rounds, QR P good kv.1 kv.2
 theorem trackerOK_empty (r p s : Nat) : TrackerOK good r p s {} := ⟨[], Props.C06.refines_init, by simp⟩
 theorem QS_empty (r p s : Nat) : QS good r p s {} := trackerOK_empty good r p s
 theorem QP_empty (r p : Nat) : QP good r p {} := by intro kv h; exact (List.not_mem_nil h).elim
-theorem threshOK_empty (r : Nat) : ThreshOK P good r {} := by intro h; exact absurd rfl h
+theorem threshOK_empty (r : Nat) : ThreshOK P good r {} := ⟨fun h => absurd rfl h, fun _ => rfl⟩
 theorem QR_empty (r : Nat) : QR P good r {} := by
   refine ⟨?_, threshOK_empty P good r, ?_⟩
   · intro kv h; exact (List.not_mem_nil h).elim
@@ -191,8 +192,16 @@ theorem accept_spec (hg : GoodSpec good) {r p s : Nat} {x : Vote} {sr sr' : Step
   | threshold k v b =>
     obtain ⟨hbv, hver⟩ := Props.C06.genBundle_valid hR hpos hcons hh
     show ThreshOK P good r ⟨k, r, p, s, v, b⟩
-    intro _
-    refine ⟨rfl, hbv, ?_, ?_⟩
+    refine ⟨fun _ => ⟨rfl, hbv, ?_, ?_⟩, fun hk0 => ?_⟩
+    rotate_left 2
+    · -- an emitted event has the kind of its step, never `none`
+      have hk := ((Props.C06.threshold_exact hR hpos hcons hh).2 k v b rfl).2.2
+      have hk0' : k = 0 := hk0
+      rw [hk0'] at hk
+      unfold eventKind at hk
+      split at hk
+      · cases hk
+      · split at hk <;> cases hk
     · intro hk
       simp only [vtPost, Bool.or_eq_true, Bool.and_eq_true, not_or] at hbad
       have hk2 : ¬ ((k == 2) = true ∧ (s != 2) = true) := hbad.1.1.1.1.2
